@@ -208,7 +208,8 @@ def worker_setup(k):
         subprocess.run(["git", "-C", str(V), "worktree", "add", "-q", "--detach", str(wv), "HEAD"], check=True)
     # always bring the worktree to the current HEAD of /verif main
     head = subprocess.run(["git", "-C", str(V), "rev-parse", "HEAD"], capture_output=True, text=True).stdout.strip()
-    subprocess.run(["git", "-C", str(wv), "checkout", "-q", "--detach", head], check=True)
+    subprocess.run(["git", "-C", str(wv), "reset", "-q", "--hard"], check=True)
+    subprocess.run(["git", "-C", str(wv), "checkout", "-q", "-f", "--detach", head], check=True)
     r = subprocess.run(["./check", "--setup"], cwd=wv, capture_output=True, text=True, env=dict(os.environ, VERIF_REPO=str(REPO)))
     if "setup ok" not in r.stdout:
         raise RuntimeError(f"setup failed in {wv}: {r.stdout[-500:]} {r.stderr[-500:]}")
